@@ -734,6 +734,12 @@ def stage_c(run, tier, rng, replay_cases=None):
                     pcs = [pieces[k % len(pieces)]]; k += 1
                 for pc in pcs:
                     jobs.append((label, doc, files, [(pos, pc)], rng.randrange(1 << 30)))
+        if tier == "quick" and len(jobs) > 560:
+            # budget: keep the hand-made and atlas documents and every override case; thin out the generated documents
+            keep = [j for j in jobs if not j[0].startswith("gen") or j[3][0][0][-1] == "override_param"]
+            rest = [j for j in jobs if j[0].startswith("gen") and j[3][0][0][-1] != "override_param"]
+            rng.shuffle(rest)
+            jobs = keep + rest[:max(0, 560 - len(keep))]
         if tier != "quick":
             labels = list(base)
             for _ in range(600):            # pairs of insertions
